@@ -375,13 +375,37 @@ Definition to_yield (c : config) (s : state) (i : nat) : state :=
 Definition to_cas (c : config) (s : state) (i : nat) : state :=
   steps_until c (fun s => is_idle s i || at_cas s i) 6 s i.
 
+(** The clock is read ONCE per make_writer call ([let now = self.now()]): [Start i t b] carries that reading and
+    every later action of the call (should_rollover, advance_date, is_latest_rotation, refresh_writer) uses it.
+    [refresh_step2 c s i t2] is the refresh step of a winner at yield_point(1) for a make_writer that names the new file
+    after a SECOND reading [t2] taken there (`refresh_writer(self.now(), ..)`) - the re-check and the stored next_date
+    still use the call's own reading.  Which of the two the source does is read off it by translators/rolling.py
+    ([gen_refresh_uses_first_reading]); [step] is the first-reading variant. *)
+Definition refresh_step2 (c : config) (s : state) (i : nat) (t2 : Z) : state :=
+  match pcs s i with
+  | Some (PRefresh t b g) =>
+      match readers s with
+      | _ :: _ => s
+      | [] =>
+          let s1 := if recheck c && negb (next s =? next_usize (rot c) t) then s else refresh c s t2 in
+          with_pcs (with_ghost s1 (rots s1) (fails s1) (decided s1) (remove_tid i (pend s1)) (overlapped s1))
+                   (upd (pcs s) i (Some (PRead t b g)))
+      end
+  | _ => s
+  end.
+
 Inductive hop :=
 | HW (i : nat) (t : Z) (b : chunk)
 | HPark (i : nat) (t : Z) (b : chunk)      (* parked at yield_point(1): after a won compare_exchange *)
 | HPark0 (i : nat) (t : Z) (b : chunk)     (* parked at yield_point(0): before the compare_exchange *)
-| HRel (i : nat).
+| HRel (i : nat)
+| HW2 (first : bool) (i : nat) (t t2 : Z) (b : chunk).
+  (* a complete call whose clock reads [t] at its start and [t2] from yield_point(1) on (the harness changes the clock
+     from inside the yield callback); [first] = the source names the rotated-to file after the call's first reading *)
 Definition hstep (c : config) (s : state) (o : hop) : state :=
   match o with
+  | HW2 true i t _ b => finish c (step c s (Start i t b)) i
+  | HW2 false i t t2 b => finish c (refresh_step2 c (to_yield c (step c s (Start i t b)) i) i t2) i
   | HW i t b => finish c (step c s (Start i t b)) i
   | HPark i t b => to_yield c (step c s (Start i t b)) i
   | HPark0 i t b => to_cas c (step c s (Start i t b)) i
